@@ -137,6 +137,14 @@ def cases(tier):
            R("Twice_X9", "uint32_t", ["uint32_t x"], "{ return fSatAdd8(x) + fsatadd8(x) + clz32(x); }"), R("_q", "int32_t", ["int32_t x"], "{ return -x; }")]
     for st in ["r = fSatAdd8(a);", "r = fsatadd8(a);", "r = fSatAdd8(a) * 1000 + fsatadd8(a);", "r = Twice_X9(a);", "r = Twice_X9(fSatAdd8(a)) + _q(b);", "r = _q(_q(a) + 1);"]:
         out.append((rts, P(d, st, ["r"]), ("names", st)))
+    # routine names that differ only by trailing digits, the shorter-named one with more than ten temporaries alive
+    # when it calls the other (the temporaries of a routine are named after it and numbered: the two must not run together)
+    dsum = " + ".join("dg(x + %d)" % k for k in range(11))
+    rts = [R("dg", "uint32_t", ["uint32_t x"], "{ return x + 1; }"),
+           R("df1", "uint32_t", ["uint32_t x"], "{ uint32_t df1_r = dg(x) + dg(x + 7); return df1_r + 2; }"),
+           R("df", "uint32_t", ["uint32_t x"], "{ uint32_t df_r = " + dsum + " + df1(x + 100); return df_r; }")]
+    for st in ["r = df(a);", "r = df(a) + df1(b);", "r = df1(a) + df(b);"]:
+        out.append((rts, P(d, st, ["r"]), ("digit-names", st)))
     # bundled routines at call sites with several calls
     for st in ["r = clz32(a) + clz32(b);", "r = clo32(a) > clo32(~a) ? clo32(a) : clo32(~a);", "r = fbrev(a) + revbit32(b) + clz64(a);", "r = conv_round(a, 3) + conv_round(b, 1);", "r = clz32(clo32(a));", "r = clz32(a) + clz32(b) + clz32(a + b) + clz32(a - b);"]:
         out.append(([], P(d, st, ["r"]), ("bundled", st)))
